@@ -44,7 +44,9 @@
 static inline void _mzd_combine(word *c, word const *t1, wi_t wide_in) {
   wi_t wide = wide_in;
 #if __M4RI_HAVE_SSE2
-  /* assuming c, t1 are alligned the same way */
+  /* the vector code needs c and t1 to be aligned the same way (not the case when one of them is a
+   * row of a window starting at an odd word offset): otherwise use the word loop below */
+  if (__M4RI_ALIGNMENT(c, 16) != __M4RI_ALIGNMENT(t1, 16)) goto word_loop;
 
   if (__M4RI_ALIGNMENT(c, 16) == 8 && wide) {
     *c++ ^= *t1++;
@@ -76,6 +78,7 @@ static inline void _mzd_combine(word *c, word const *t1, wi_t wide_in) {
     __M4RI_DD_RAWROW(c, wide_in);
     return;
   }
+word_loop:;
 #endif  // __M4RI_HAVE_SSE2
 
   wi_t n = (wide + 7) / 8;
